@@ -19,8 +19,8 @@ add("C03", "envelope monitor on measured true regret and returned bounds of solv
 add("C04", "envelope monitor with replication: true regret (O1) of Sampled/External outputs vs D*N*sqrt(A)/sqrt(T), exceedance must replicate on 11 of 21 fresh seeded sampling histories; aggregate medians over the run",
     "Held on the observed sampling histories: no (game, configuration) exceeded the convergence envelope reproducibly, and the median regret across games fell far below the T=100 level at T=3000. Statistical statement with replication; one known finding (a chance infoset repeated on one path) is reported as KNOWN-FINDING.",
     "Trusts O1 and hook H2 (seeded sampling feeds the production sampler from a deterministic RNG); the probabilistic statement is read as 'replicates on a majority of 21 fresh seeds'.")
-add("C05", "totality monitor around every solve call in supervised worker processes: panic/abort/deadlock(no-CPU-progress)/livelock(CPU-time)/error-kind detection and well-formedness of the dense result (hook H1), over the full configuration grid incl. degenerate games and contended infosets; fault injection (thread creation made to fail via RLIMIT_AS in fresh processes); thorough tier adds schedule exploration under Miri (deadlock/data-race/panic oracle)",
-    "Held on every observed call: no panic, abort or deadlock witness; only the two documented error kinds and never with one thread; every returned probability vector was a distribution and every bound finite and non-negative (infinite only with zero iterations).",
+add("C05", "totality monitor around every solve call in supervised worker processes: panic/abort/deadlock(no-CPU-progress)/livelock(CPU-time)/error-kind detection and well-formedness of the dense result (hook H1), over the full configuration grid incl. degenerate games and contended infosets; fault injection (thread creation made to fail via RLIMIT_AS in fresh processes); deep games (depth 3000-40000) solved with one thread and with several in own processes on a 4 GiB caller stack; thorough tier adds schedule exploration under Miri (deadlock/data-race/panic oracle)",
+    "Held on every observed call: no panic, abort or deadlock witness; only the two documented error kinds and never with one thread; every returned probability vector was a distribution and every bound finite and non-negative (infinite only with zero iterations). One known finding: deep games abort with a stack overflow when solved with more than one thread (known_findings.json).",
     "Dense vectors are read through hook H1 (public readers hide NaN/negative entries); deadlock is restated as bounded progress (no CPU consumed for 25 s inside a solve).")
 add("C06", "differential k-thread vs 1-thread runs of solve(Full) under jitter hooks (H5, incl. jitter while an infoset lock is held), oversubscription, contention workloads and repetition + offline O3 step checker with exactly-once visit monitor on every k-thread event log; deadlock witness by no-CPU-progress; thorough tier adds schedule exploration under Miri with the same monitors",
     "Held on every observed k-thread run and schedule: output equal to the 1-thread run within rounding (margin/conditioning rule for regret-matching discontinuities) and every logged transition was the documented one with each decision node processed exactly once per pass. Schedules explored are those the pool produced; their number is measured and reported.",
